@@ -12,6 +12,13 @@ the modelled part is logic, not data):
            arguments, against the heap interpreter `Bind.hexec` (reference semantics; also the callee ENTRY contexts);
   * probe— event-driven privacy programs (instances that wait, are resumed later and emit their variables) and
            aliasing programs (in-place `append`/`update` on a passed list/dict); oracle only.
+  * act  — (kind probe) the same flow activated 2-7 times while the earlier activations are alive (explicit / omitted /
+           equal / different arguments in every order, `start` calls in between, two callers, Ping rounds with restarts):
+           for every call some instance echoes exactly the call's parameter values; oracle only.
+  * ref  — the real `_get_reference_activated_flow_instance` and the real StartFlow branch of
+           `_process_internal_events_without_default_matchers` on states assembled by the real constructor functions,
+           against `Bind.refActivated` / `Bind.startDecision` / `Bind.activateStepEv`.
+  * loop — (kind probe) a call statement reached once per iteration of a `while` loop; oracle only.
 Oracle (independent of the Lean model): `spec_run`, a direct transcription of the property statement — parameter i gets
 positional i, else the named argument, else the declared default, else None; `$x = await f` assigns the value of the
 `return` expression; an assignment touches only the assigning instance (or the global context when declared global).
@@ -39,6 +46,11 @@ RULE = ("fn: signature of 0-5 parameters (each with/without default; defaults of
         "dict, dict of list, set; same default text in several flows) mutated by expression statements, called 2-6 times with the argument omitted / "
         "positional / named by await/start/activate, return values kept and re-emitted; 15% pass container variables (finding region). "
         "restart probes: activated flow that finishes and restarts, default mutated in place or re-assigned, argument omitted or supplied. "
+        "act probes: 1-2 flows of 1-3 parameters activated/started 2-7 times while earlier activations live (per call every parameter positional / named / omitted, values from "
+        "small pools containing the declared default, orders mixed / explicit-then-omitted / omitted-then-explicit, caller variables as arguments, second caller flow, instance "
+        "re-assigning a parameter, Ping rounds with restart). ref: 0-4 running instances (creating call arbitrary, counter 0/1/2, parent main/gone/None/same flow) x query call "
+        "(incl. clash, activated True/1/False/missing) x source main/child/done, values incl. Python-equal ones of different type and reordered dicts/sets. loop probes: while loop of "
+        "2-4 iterations around await-with-capture / start / activate with arguments depending on the loop variable. fn-big: signatures of 10-13 parameters. "
         "non-trivial = at least one parameter "
         "bound from an argument or default (fn) / at least one call with arguments or a return value (e2e, probe); "
         "distinct = distinct case JSON.")
@@ -52,13 +64,14 @@ ASSUMPTIONS = [
     "programs that mutate in place run in a forked child of the worker (process-wide state of the code under test cannot leak between cases); emitted events are observed with the values they have at emission (deep copy on append to state.outgoing_events); callee entry contexts are snapshots taken by a wrapper around `_start_flow`",
     "user variables do not start with `_` (the expansion's hidden `_ref_…`/`_event_ref_…` variables live in the same context); parameter names are identifiers, never `$<digits>`",
     "e2e fragment: callee bodies run synchronously to their end or to `match Never()` (the event queue is abstracted; the FlowStarted / FlowFinished matches of a call go through the C04 matcher model, pattern evaluated at match time); defaults are evaluated once per call in the empty context",
-    "modelled by hand: create_flow_instance, _start_flow, slide branches Assignment/Global/Return, _get_eval_context + `$var` lookup of eval_expression, FlowState.finished_event/_create_out_event, the expansion shape of `$x = await f(..)`",
+    "modelled by hand: create_flow_instance, _start_flow, slide branches Assignment/Global/Return, _get_eval_context + `$var` lookup of eval_expression, FlowState.finished_event/_create_out_event, the expansion shape of `$x = await f(..)`, _get_reference_activated_flow_instance and the StartFlow branch of _process_internal_events_without_default_matchers (decision only: the FlowStarted hand-shake of a call served by a running activation, child lists and deactivation counters are not modelled)",
+    "ref stream: the state is assembled by the real create_flow_instance/add_new_flow_instance/_start_flow and then `activated` / `parent_uid` of the instances are set directly (the attributes the lookup reads); activation probes: `==` on the generated values is type-exact (no 0/1/1.0), an activate with positional arguments served by an activation created with fewer positionals leaves its caller waiting (observed, outside the statement): the oracle stops at that call",
 ]
 EXHAUSTIVE = {"quick": True, "thorough": True}
 
 RESERVED = ["flow_id", "flow_instance_uid", "source_flow_instance_uid", "source_head_uid", "flow_hierarchy_position", "activated"]
 PNAMES = ["a", "b", "c", "d", "e", "p", "q"]
-VALUES = [None, True, False, 0, 1, 2, 7, 12, 0.5, 1.5, 2.25, "s", "hello world", "", "7", [], [1, 2], ["x", None], [[1], {"k": 2}], {}, {"k": 1},
+VALUES = [None, True, False, 0, 1, 2, 7, 12, 0.5, 1.5, 2.25, "s", "hello world", "", "7", "a=b", "x, y", "p)q(", "k: v # no", "and or not", [], [1, 2], ["x", None], [[1], {"k": 2}], {}, {"k": 1},
           {"k": [1, 2], "j": None}, {"n": {"m": True}}]
 SCALARS_DISTINCT = [None, 2, 3, 7, 12, "s", "t", "hello"]
 
@@ -140,8 +153,15 @@ def render_stmt(st):
     if op == "block":
         return "match Never()"
     if op == "call":
-        args = [render_expr(e) for e in st["pos"]] + [f"{k}={render_expr(e)}" for k, e in st["named"]]
-        s = f"{st['form']} {st['flow']}" + ("(" + ", ".join(args) + ")" if args else "")
+        # (simple syntax is ambiguous where a positional argument that starts with `[` follows another one: `f None [1, 2]` is
+        #  the subscript `None[1, 2]` — such calls are written in the classic syntax)
+        if st.get("syntax") == "simple" and (st["pos"] or st["named"]) and not any(render_expr(e).startswith("[") for e in st["pos"][1:]):
+            # the second call syntax of Colang 2.x (`simple_arguments`): `await fa 1 "x" $b=2` — its own branch in the transformer
+            args = [render_expr(e) for e in st["pos"]] + [f"${k}={render_expr(e)}" for k, e in st["named"]]
+            s = f"{st['form']} {st['flow']} " + " ".join(args)
+        else:
+            args = [render_expr(e) for e in st["pos"]] + [f"{k}={render_expr(e)}" for k, e in st["named"]]
+            s = f"{st['form']} {st['flow']}" + ("(" + ", ".join(args) + ")" if args else "")
         return (f"${st['ret']} = " if st.get("ret") else "") + s
     if op == "mut":
         # in-place mutation through an expression side effect: `($x.append(..))` / `$z = $x[0].append(..)`
@@ -174,11 +194,12 @@ def g_value(rng):
 def g_default(rng, names):
     r = rng.random()
     if r < 0.12:
-        return {"var": rng.choice(names + ["zz", "v"])}
+        # (`g` is the global of the generated programs, `v` a local of every caller: a declared default sees neither)
+        return {"var": rng.choice(names + ["zz", "v", "g", "g"])}
     if r < 0.2:
         return {"l1": lit(g_value(rng))}
     if r < 0.26:
-        return {"l2": [lit(g_value(rng)), {"var": rng.choice(names + ["v"])}]}
+        return {"l2": [lit(g_value(rng)), {"var": rng.choice(names + ["v", "g"])}]}
     return lit(g_value(rng))
 
 
@@ -263,6 +284,19 @@ def g_fn(rng):
     return mk_fn(params, rets, pos, named, how, extra, drop, activated=rng.random() < 0.1)
 
 
+def g_fn_big(rng):
+    """unusual but legal: signatures of 10-13 parameters, up to 13 positionals (`$10` sorts before `$2` as a string), position-coded values"""
+    n = rng.choice([10, 11, 12, 13])
+    names = ["x%d" % i for i in range(n)]
+    params = [{"name": nm, "default": lit("D" + nm) if rng.random() < 0.5 else None} for nm in names]
+    k = rng.choice([n, n, n - 1, 11, 10, 3, 0])
+    k = min(k, n)
+    pos = [(i, "P%d" % i) for i in range(k)]
+    named = [(nm, "N" + nm) for nm in names[k:] if rng.random() < 0.5]
+    rng.shuffle(named)
+    return mk_fn(params, [], pos, named, "call")
+
+
 def enum_fn_shapes(max_n):
     """every call shape for signatures of <= max_n parameters (values are position-coded so that any mix-up shows)"""
     cases = []
@@ -283,6 +317,7 @@ def enum_fn_shapes(max_n):
 
 
 CALLEES = ["fa", "fb", "fc"]
+CALL_SYNTAX = ["classic", "classic", "simple"]   # `f(1, b=2)` / `f 1 $b=2`
 LOCALS = ["v", "w"]
 
 
@@ -319,7 +354,7 @@ def g_call(rng, flows_by_name, target, form, scope_vars, ret=None, mode=None):
         named.append(["zz", lit(rng.choice(SCALARS_DISTINCT))])
     elif mode == "dup-named" and named:
         named.append([named[0][0], lit(rng.choice(SCALARS_DISTINCT))])
-    return {"op": "call", "form": form, "ret": ret, "flow": target, "pos": pos, "named": named}
+    return {"op": "call", "form": form, "ret": ret, "flow": target, "pos": pos, "named": named, "syntax": rng.choice(CALL_SYNTAX)}
 
 
 def g_prog(rng, mode=None):
@@ -538,7 +573,7 @@ def g_hist(rng, passed=False):
         pos = [arg(p["name"]) for p in params[:k]]
         named = [[p["name"], arg(p["name"])] for p in params[k:] if rng.random() < 0.2]
         rng.shuffle(named)
-        return {"op": "call", "form": form, "ret": ret, "flow": target, "pos": pos, "named": named}
+        return {"op": "call", "form": form, "ret": ret, "flow": target, "pos": pos, "named": named, "syntax": rng.choice(CALL_SYNTAX)}
 
     for i in reversed(range(nfl)):
         f = flows[i]
@@ -837,18 +872,258 @@ def g_when_probe(rng):
     return {"kind": "probe", "tmpl": "when-" + shape + ":" + "+".join(sorted(set(forms))), "src": helper + "\n".join(main) + "\n", "events": evs, "expect": expect}
 
 
+# --- probes: the SAME flow activated several times while earlier activations are alive (plus `start` calls of the same
+#     flow in between).  The statement, per call: each parameter receives the positional / named argument evaluated in
+#     the caller, or the declared default (None without one) when omitted — so for EVERY call some instance of the flow
+#     runs with exactly that call's parameter values; an `activate` may be served by an activation that already runs only
+#     when ALL parameter values agree (then "its" instance is that one); no instance runs with values nobody passed.
+#     Calls: explicit / omitted / equal / different arguments in every order, positional / named mixes, values drawn from
+#     a small per-parameter pool that contains the declared default (explicit-equal-to-default vs omitted), variables of
+#     the caller as arguments, 1-2 flows with the same signature text, a suffix of the calls issued by a second caller
+#     flow.  Variant `hold`: instances echo their parameters and wait; variant `ping`: every instance lives in its own
+#     interaction loop, echoes again on `Ping`, finishes, and — activated ones — restarts (1-2 rounds).
+
+ACT_VALS = [None, True, False, 2, 7, 12, "x", "y", "", 1.5, [1, 2], [], {"k": 1}]   # `==` on these is type-exact (no 0/1/1.0)
+
+
+def g_act_probe(rng):
+    nfl = rng.choice([1, 1, 1, 2])
+    n = rng.choice([1, 2, 2, 2, 3])
+    names = rng.sample(["p", "q", "tag", "level", "a"], n)
+    pools, params = [], []
+    # half of the programs draw the values of ALL parameters from one small pool (a value passed for one parameter is the
+    # declared default / the running value of another: any comparison that looks at the wrong parameter goes wrong visibly)
+    common = rng.sample(ACT_VALS, 3) if rng.random() < 0.5 else None
+    for nm in names:
+        pool = list(common) if common else rng.sample(ACT_VALS, rng.choice([2, 2, 3]))
+        has_d = rng.random() < 0.65
+        d = rng.choice(pool) if has_d and rng.random() < 0.85 else rng.choice(ACT_VALS)
+        if has_d and d is None and rng.random() < 0.7:
+            d = rng.choice([v for v in ACT_VALS if v is not None])
+        params.append({"name": nm, "default": lit(d) if has_d else None})
+        pools.append(pool + ([d] if has_d else [None]))
+    same_sig = rng.random() < 0.6
+    flows = []
+    for fi in range(nfl):
+        ps = params if (fi == 0 or same_sig) else [dict(p_, default=(lit(rng.choice(pl)) if p_["default"] is not None else None)) for p_, pl in zip(params, pools)]
+        flows.append({"name": CALLEES[fi], "params": ps})
+    variant = rng.choice(["hold", "hold", "ping"])
+    ncalls = rng.choice([2, 3, 3, 4, 4, 5, 6, 7])
+    mvars = {}
+    calls = []
+    style = rng.choice(["mixed", "mixed", "explicit-then-omitted", "omitted-then-explicit"])
+    # (a later call with MORE positionals than the equal-valued call that created the activation leaves its caller waiting —
+    #  observed hand-shake quirk, the oracle stops there: most programs keep one positional count per program)
+    kfix = rng.choice([None, None, 0, 0, 1, 2])
+    for ci in range(ncalls):
+        form = "activate" if rng.random() < 0.8 else "start"
+        fl = rng.choice(flows)
+        k = rng.choice([0, 0, 1, 1, 2, 3]) if kfix is None else kfix
+        k = min(k, n)
+        p_omit = {"mixed": 0.4, "explicit-then-omitted": 0.1 if ci < ncalls // 2 else 0.7, "omitted-then-explicit": 0.7 if ci < ncalls // 2 else 0.1}[style]
+        pos, named = [], []
+        for i, nm in enumerate(names):
+            if i >= k and rng.random() < p_omit:
+                continue
+            v = rng.choice(pools[i])
+            if rng.random() < 0.25 and not _is_container(v):
+                vn = "m%d" % len(mvars)
+                mvars[vn] = v
+                e = {"var": vn}
+            else:
+                e = lit(v)
+            if i < k:
+                pos.append(e)
+            else:
+                named.append([nm, e])
+        rng.shuffle(named)
+        calls.append({"form": form, "flow": fl["name"], "pos": pos, "named": named, "syntax": rng.choice(CALL_SYNTAX)})
+    split = rng.randrange(1, ncalls) if rng.random() < 0.25 else ncalls   # calls[split:] are issued by the second caller `hb`
+    act = {"flows": flows, "calls": calls, "variant": variant, "split": split, "mvars": [[k_, vj.enc(v)] for k_, v in mvars.items()],
+           "pings": rng.choice([1, 2]) if variant == "ping" else 0}
+    if variant == "hold" and rng.random() < 0.35:
+        # the running instance re-assigns one of its parameters after the echo (its own variable: what the instance was STARTED
+        # with — and what a later call is compared with — does not change), to a value other calls pass
+        i = rng.randrange(n)
+        passed = [e["lit"] for c in calls for e in (c["pos"][i:i + 1] + [e_ for k_, e_ in c["named"] if k_ == names[i]]) if "lit" in e]
+        act["reassign"] = [names[i], rng.choice(passed) if passed and rng.random() < 0.8 else vj.enc(rng.choice(pools[i]))]
+    return mk_act(act)
+
+
+def mk_act(act):
+    """source text + events of an activation probe (the oracle reads the structured `act`, never the text)"""
+    out = []
+    for f in act["flows"]:
+        pn = [p["name"] for p in f["params"]]
+        echo = ", ".join(["f=" + json.dumps(f["name"])] + [f"{x}=${x}" for x in pn])
+        if act["variant"] == "ping":
+            out.append('@loop("NEW")')
+        out.append(render_sig(f["name"], f["params"], []))
+        out.append(f"  send In({echo})")
+        if act["variant"] == "ping":
+            out += ["  match Ping()", f"  send Out({echo})"]
+        else:
+            if act.get("reassign"):
+                out.append(f"  ${act['reassign'][0]} = {render_val(vj.dec(act['reassign'][1]))}")
+            out.append("  match Never()")
+        out.append("")
+    mv = [f"  ${k} = {render_val(vj.dec(v))}" for k, v in act["mvars"]]
+
+    def lines(lo, hi):
+        ls = []
+        for ci in range(lo, hi):
+            ls.append("  " + render_stmt(dict(act["calls"][ci], op="call", ret=None)))
+            ls.append(f"  send Done(i={ci})")
+        return ls
+
+    split, ncalls = act["split"], len(act["calls"])
+    if split < ncalls:
+        out += ["flow hb"] + mv + lines(split, ncalls) + ["  send Fin()", "  match Never()", ""]
+    out += ["flow main"] + mv + lines(0, split)
+    out += (["  start hb"] if split < ncalls else ["  send Fin()"]) + ["  match Never()"]
+    return {"kind": "probe", "tmpl": "act-" + act["variant"], "src": "\n".join(out) + "\n", "events": [{"type": "Ping"}] * act["pings"], "act": act}
+
+
+# --- ref (fn level): the lookup `_get_reference_activated_flow_instance` and the StartFlow decision built on it, on states
+#     assembled from the real `create_flow_instance` / `add_new_flow_instance` / `_start_flow`: 0-4 instances of one flow
+#     created by arbitrary calls (k positionals / named / omitted; values from small per-parameter pools so that equal and
+#     different values meet; Python-equal values of different type, dicts/sets in another order), activation counter 0/1/2,
+#     parent = main / gone / None / an instance of the same flow (restarted child); the query call likewise (also with a
+#     named/positional clash, `activated` = True / 1 / False / missing) issued by main / by an instance of the same flow
+#     (restart) / by a finished flow.  Model: `refActivated` / `startDecision` on the instances the MODEL's
+#     `createFlowInstance` makes from the same calls.
+
+REF_VALS = [None, True, False, 0, 1, 1.0, 2, 7, "x", "", 1.5, [1, 2], [1, True], [], {"k": 1, "j": 2}, {"j": 2, "k": 1}, {"k": 1}, {1, 2}, {2, 7}]
+
+
+def g_ref_call(rng, names, pools, allow_clash=False):
+    n = len(names)
+    k = rng.choice([0, 0, 0, 1, 1, 2, 3])
+    k = min(k, n)
+    pos = [rng.choice(pools[i]) for i in range(k)]
+    named = [[nm, rng.choice(pools[i])] for i, nm in enumerate(names) if i >= k and rng.random() < 0.45]
+    if allow_clash and k and rng.random() < 0.08:
+        i = rng.randrange(k)
+        named.append([names[i], rng.choice(pools[i])])
+    rng.shuffle(named)
+    return {"pos": [vj.enc(v) for v in pos], "named": [[k_, vj.enc(v)] for k_, v in named]}
+
+
+def g_ref(rng):
+    n = rng.choice([1, 1, 2, 2, 3])
+    names = rng.sample(PNAMES, n)
+    pools, params = [], []
+    for nm in names:
+        pool = rng.sample(REF_VALS, rng.choice([2, 2, 3]))
+        has_d = rng.random() < 0.65
+        d = rng.choice(pool) if rng.random() < 0.8 else rng.choice(REF_VALS)
+        if isinstance(d, set) and not d:
+            d = {1, 2}
+        params.append({"name": nm, "default": lit(d) if has_d else None})
+        pools.append(pool + ([d] if has_d else [None]))
+    insts = []
+    for _ in range(rng.choice([0, 1, 1, 2, 2, 3, 4])):
+        insts.append(dict(g_ref_call(rng, names, pools), activated=rng.choice([1, 1, 1, 1, 2, 0]),
+                          parent=rng.choice(["main"] * 8 + ["gone", "none", "same"])))
+    q = g_ref_call(rng, names, pools, allow_clash=True)
+    q["activated"] = rng.choice([True] * 8 + [1, False, "missing"])
+    src = rng.choice(["main"] * 6 + ["child", "child", "done"])
+    if src == "child" and not insts:
+        src = "main"
+    q["src"] = src
+    q["src_inst"] = rng.randrange(len(insts)) if src == "child" else None
+    return {"kind": "ref", "params": params, "insts": insts, "query": q}
+
+
+def _ref_user_ev(call):
+    ev = [[f"${i}", v] for i, v in enumerate(call["pos"])]
+    for k, v in call["named"]:
+        hit = [kv for kv in ev if kv[0] == arg_key(k)]
+        if hit:
+            hit[0][1] = v
+        else:
+            ev.append([arg_key(k), v])
+    return ev
+
+
+# --- probes: the second REACH of a call statement.  A call inside a `while` body is executed once per iteration with
+#     arguments that depend on the loop variable / on locals re-assigned in the loop: every iteration's instance must be bound
+#     to THAT iteration's values (arguments evaluated in the caller at the time of the call, defaults per call) and every
+#     `$x = await f(..)` must capture THAT iteration's return value.  Forms: await with capture, start, activate (distinct
+#     values per iteration: distinct activations), a waiting callee resumed after the loop in random order (and restarted
+#     when activated).
+
+def g_loop_probe(rng):
+    n_it = rng.choice([2, 2, 3, 4])
+    down = rng.random() < 0.3
+    d = rng.choice(["d", 7, None, [1, 2], {"k": 1}, False])
+    ret_kind = rng.choice(["ab", "ab", "a", "b1"])
+    ret_src = {"ab": "[$a, $b]", "a": "$a", "b1": "[$b]"}[ret_kind]
+    ivals = list(range(n_it, 0, -1)) if down else list(range(n_it))
+    # argument shapes: (source text with $i / $w, function of (i) giving (a, b))
+    shapes = [("$i", lambda i: (i, d)), ("a=$i", lambda i: (i, d)), ("$i, [$i, \"k\"]", lambda i: (i, [i, "k"])), ("$i, b=$i", lambda i: (i, i)),
+              ("b=\"c\", a=$i", lambda i: (i, "c")), ("$w", lambda i: ([i, "w"], d)), ("$i, $w", lambda i: (i, [i, "w"])), ("$i * 10", lambda i: (i * 10, d)),
+              ("a=$i, b=$w", lambda i: (i, [i, "w"]))]
+    items = []
+    if rng.random() < 0.85:
+        items.append(("await",) + rng.choice(shapes))
+    waiter = None
+    if rng.random() < 0.7 or not items:
+        waiter = (rng.choice(["start", "activate"]),) + rng.choice([s_ for s_ in shapes if not s_[0].startswith("$w")])
+        items.append(waiter)
+    if rng.random() < 0.3:
+        items.append(("await",) + rng.choice(shapes))
+    rng.shuffle(items)
+    src = [f"flow fa $a $b={render_val(d)}", "  send In(a=$a, b=$b)", "  $v = [$a, \"loc\"]", f"  return {ret_src}", "",
+           f"flow fw $a $b={render_val(d)}", "  send InW(a=$a, b=$b)", "  match Go(a=$a)", "  send Late(a=$a, b=$b)", "",
+           "flow main", f"  $i = {ivals[0]}", "  $x = \"none\"", "  $v = \"mine\"",
+           f"  while $i {'> 0' if down else '< ' + str(n_it)}", "    $w = [$i, \"w\"]"]
+    for form, a_src, _ in items:
+        if form == "await":
+            src += [f"    $x = await fa({a_src})", "    send Got(i=$i, x=$x, v=$v)"]
+        else:
+            src.append(f"    {form} fw({a_src})")
+    src += [f"    $i = $i {'- 1' if down else '+ 1'}", "  send Fin(i=$i, x=$x, v=$v)", "  match Never()"]
+    expect, x = [], "none"
+    for i in ivals:
+        for form, _, fn in items:
+            a, b = fn(i)
+            if form == "await":
+                x = {"ab": [a, b], "a": a, "b1": [b]}[ret_kind]
+                expect += [["In", {"a": a, "b": b}], ["Got", {"i": i, "x": x, "v": "mine"}]]
+            else:
+                expect.append(["InW", {"a": a, "b": b}])
+    expect.append(["Fin", {"i": (0 if down else n_it), "x": x, "v": "mine"}])
+    events = []
+    if waiter:
+        order = list(ivals)
+        rng.shuffle(order)
+        for i in order[:rng.choice([1, 2, len(order)])]:
+            a, b = waiter[2](i)
+            events.append({"type": "Go", "a": a})
+            expect.append(["Late", {"a": a, "b": b}])
+            if waiter[0] == "activate":
+                expect.append(["InW", {"a": a, "b": b}])
+    return {"kind": "probe", "tmpl": "loop:" + "+".join(sorted({it[0] for it in items})), "src": "\n".join(src) + "\n", "events": events, "expect": expect}
+
+
 def gen_cases(rng, tier):
     global _TIER
     _TIER = tier
     n_fn, n_e2e, n_probe = (5000, 300, 60) if tier == "quick" else (200000, 10000, 1000)
+    n_act, n_ref, n_loop = (300, 1250, 120) if tier == "quick" else (2000, 20000, 600)
     cases = enum_fn_shapes(3)
     cases += [g_fn(rng) for _ in range(n_fn)]
+    cases += [g_fn_big(rng) for _ in range(100 if tier == "quick" else 2000)]
     modes = [None] * 12 + ["clash", "clash", "surplus", "unknown-named", "dup-named", "reserved"]
     cases += [g_prog(rng, rng.choice(modes)) for _ in range(n_e2e)]
     cases += [g_hist(rng, passed=rng.random() < 0.15) for _ in range(n_e2e if tier == "quick" else n_e2e // 2)]
     cases += [g_probe(rng) for _ in range(n_probe)]
     cases += [g_when_probe(rng) for _ in range(2 * n_probe)]
     cases += [g_restart_probe(rng) for _ in range(n_probe)]
+    cases += [g_act_probe(rng) for _ in range(n_act)]
+    cases += [g_ref(rng) for _ in range(n_ref)]
+    cases += [g_loop_probe(rng) for _ in range(n_loop)]
     return cases
 
 
@@ -1071,12 +1346,97 @@ def _mutates(case):
     return case["kind"] == "probe" and (case["tmpl"].startswith(("inplace-", "restart-")) or ".append(" in case["src"] or ".update(" in case["src"])
 
 
+def run_ref(case):
+    """real `_get_reference_activated_flow_instance`, then real `_process_internal_events_without_default_matchers` for the
+    StartFlow event, on a state assembled by the real constructor functions"""
+    sm = _SM
+    from nemoguardrails.colang.v2_x.runtime.flows import FlowStatus, InternalEvent
+
+    src = render_sig("f", case["params"], []) + "\n  match Never()\n\nflow g\n  match Never()\n\nflow main\n  match Never()\n"
+    obs = {"src": src}
+    try:
+        with contextlib.redirect_stdout(io.StringIO()):
+            st = _build(src)
+    except Exception as e:  # noqa
+        obs["skip"] = "parse:" + type(e).__name__
+        return obs
+    main_uid = st.main_flow_state.uid
+
+    def mk(flow, uid, call, source_uid, activated):
+        ev = {k: vj.dec(v) for k, v in _ref_user_ev(call)}
+        ev.update({"flow_id": flow, "flow_instance_uid": uid, "source_flow_instance_uid": source_uid, "source_head_uid": "h1",
+                   "flow_hierarchy_position": "0.1"})
+        if activated != "missing":
+            ev["activated"] = activated
+        return ev
+
+    fss = []
+    try:
+        for i, inst in enumerate(case["insts"]):
+            ev = mk("f", "(f)u%d" % i, inst, main_uid, True)
+            fs = sm.create_flow_instance(st.flow_configs["f"], ev["flow_instance_uid"], "0.1", ev)
+            sm.add_new_flow_instance(st, fs)
+            sm._start_flow(st, fs, ev)
+            fss.append(fs)
+        for fs, inst in zip(fss, case["insts"]):
+            fs.activated = inst["activated"]
+            fs.parent_uid = {"main": main_uid, "gone": "(g)gone", "none": None, "same": fss[0].uid}[inst["parent"]]
+    except Exception as e:  # noqa
+        obs["skip"] = "setup:" + _exc_name(e)
+        return obs
+    q = case["query"]
+    source_uid = main_uid
+    if q["src"] == "child":
+        source_uid = fss[q["src_inst"]].uid
+    elif q["src"] == "done":
+        gev = mk("g", "(g)u9", {"pos": [], "named": []}, main_uid, "missing")
+        gs = sm.create_flow_instance(st.flow_configs["g"], "(g)u9", "0.2", gev)
+        sm.add_new_flow_instance(st, gs)
+        sm._start_flow(st, gs, gev)
+        gs.status = FlowStatus.FINISHED
+        source_uid = gs.uid
+    qev = mk("f", "(f)q", q, source_uid, q["activated"])
+    known = "f" in st.flow_id_states
+    obs["known"] = known
+    ids = [id(fs) for fs in st.flow_id_states.get("f", [])]
+    if known:
+        try:
+            r = sm._get_reference_activated_flow_instance(st, InternalEvent(name="StartFlow", arguments=dict(qev)))
+            obs["ref"] = None if r is None else ids.index(id(r))
+        except Exception as e:  # noqa
+            obs["ref"] = "err:" + _exc_name(e)
+    before = [fs.activated for fs in fss]
+    event = InternalEvent(name="StartFlow", arguments=dict(qev))
+    try:
+        sm._process_internal_events_without_default_matchers(st, event)
+        now = st.flow_id_states.get("f", [])
+        if len(now) > len(ids):
+            # (whose child the new instance becomes: index of the f-instance named as source after the branch, None = not an f-instance)
+            su = event.arguments["source_flow_instance_uid"]
+            uids = [fs.uid for fs in fss]
+            obs["decision"] = ["create", uids.index(su) if su in uids else None]
+            new = now[-1]
+            sm._start_flow(st, new, event.arguments)   # what the interpreter does next with the new instance
+            obs["new_params"] = [[p["name"], _enc_safe(new.context.get(p["name"]))] for p in case["params"]]
+        else:
+            bumped = [i for i, fs in enumerate(fss) if fs.activated != before[i]]
+            obs["decision"] = ["reuse", bumped[0]] if len(bumped) == 1 and fss[bumped[0]].activated == before[bumped[0]] + 1 else \
+                ("ignored" if not bumped else "other:" + json.dumps(bumped))
+        # `state.flow_id_states[f]` after the step: activation counter and `arguments` (ordered) of every instance
+        obs["after"] = [[int(fs.activated), _items(fs.arguments, source_uid)] for fs in st.flow_id_states.get("f", [])]
+    except Exception as e:  # noqa
+        obs["decision"] = "err:" + _exc_name(e)
+    return obs
+
+
 _TIER = None  # set by gen_cases in the parent before the worker pool is forked
 
 
 def run_impl(case):
     if case["kind"] == "fn":
         return run_fn(case)
+    if case["kind"] == "ref":
+        return run_ref(case)
     # quick tier / replay / shrinking: EVERY program runs isolated (a replay must reproduce in a fresh process whatever
     # module-level state an earlier program left in the code under test); thorough tier: the programs that mutate in place
     iso = _TIER != "thorough" or _mutates(case)
@@ -1098,6 +1458,22 @@ def model_requests(case, obs):
         return []
     if case["kind"] == "fn":
         return [{"m": "C08.bind", "params": case["params"], "rets": case["rets"], "ev": case["ev"], "main": False, "asis": not REPAIRED}]
+    if case["kind"] == "ref":
+        if not REPAIRED:   # the lookup is modelled with the repaired argument keys only
+            return []
+        q = case["query"]
+        base = [["flow_id", {"s": "f"}], ["flow_instance_uid", {"s": "(f)u"}], ["source_flow_instance_uid", {"s": "@src"}],
+                ["source_head_uid", {"s": "h1"}], ["flow_hierarchy_position", {"s": "0.1"}]]
+
+        def full(call, activated):
+            ev = _ref_user_ev(call) + base
+            return ev + ([] if activated == "missing" else [["activated", vj.enc(activated)]])
+
+        insts = [{"ev": full(i_, True), "activated": i_["activated"], "parentAlive": i_["parent"] in ("main", "same"),
+                  "parentSame": i_["parent"] == "same"} for i_ in case["insts"]]
+        srcj = {"main": {"flow": "main", "done": False, "activated": 1}, "done": {"flow": "g", "done": True, "activated": 0},
+                "child": {"flow": "f", "done": False, "activated": case["insts"][q["src_inst"]]["activated"] if q["src"] == "child" else 0}}[q["src"]]
+        return [{"m": "C08.refact", "params": case["params"], "insts": insts, "ev": full(q, q["activated"]), "src": srcj, "known": obs["known"]}]
     if case["kind"] == "e2e" and case.get("mode", "").startswith("hist"):
         # in-place mutation: only the heap interpreter models it
         p = case["prog"]
@@ -1136,6 +1512,21 @@ def compare(case, obs, mouts):
         fm = [kv for kv in smo["finished"] if kv[0] not in ("source_flow_instance_uid", "flow_instance_uid")]
         if fi != fm:
             return f"finished_event arguments: impl {fi} model {fm}"
+        return None
+    if case["kind"] == "ref":
+        if obs.get("known") and obs.get("ref") != m["ref"] and case["query"]["activated"] != "missing":
+            return f"_get_reference_activated_flow_instance: impl {obs.get('ref')} model {m['ref']}"
+        md = m["decision"]
+        if isinstance(md, list) and md[0] == "create" and md[1] is None and case["query"]["src"] == "child":
+            md = ["create", case["query"]["src_inst"]]   # not re-parented: the source stays the requesting f-instance
+        if obs["decision"] != md:
+            return f"StartFlow decision: impl {obs['decision']} model {md}"
+        q = case["query"]
+        if q["src"] == "main" and q["activated"] is True and "after" in obs and isinstance(m.get("after"), list):
+            # the whole step (`activateStepEv`): counters and the arguments every instance was started with
+            norm = lambda l: [[a, [kv for kv in _strip_uids([[k, canon_j(v)] for k, v in items]) if kv[0] != "source_flow_instance_uid"]] for a, items in l]  # noqa
+            if norm(obs["after"]) != norm(m["after"]):
+                return f"instances after the StartFlow step: impl {norm(obs['after'])} model {norm(m['after'])}"
         return None
     # e2e: every model output (value interpreter `exec`, heap interpreter `hexec`) against the real run
     for which, m in zip(("exec", "hexec") if len(mouts) == 2 else ("hexec",), mouts):
@@ -1388,6 +1779,132 @@ def oracle_e2e(case, obs, share=False):
     return None
 
 
+def act_tuples(act):
+    """per call: (flow, the parameter values the STATEMENT gives that call) as a canonical key — positional | named |
+    declared default | None, arguments evaluated in the caller"""
+    flows = {f["name"]: f for f in act["flows"]}
+    menv = {k: vj.dec(v) for k, v in act["mvars"]}
+    keys = []
+    for c in act["calls"]:
+        params = flows[c["flow"]]["params"]
+        env = spec_bind(params, [spec_eval(e, menv, {}, set()) for e in c["pos"]], {k: spec_eval(e, menv, {}, set()) for k, e in c["named"]})
+        keys.append(json.dumps([c["flow"], [[p["name"], _cenc(env[p["name"]])] for p in params]], sort_keys=True))
+    return keys
+
+
+def oracle_act(case, obs):
+    act = case["act"]
+    flows = {f["name"]: f for f in act["flows"]}
+    calls = act["calls"]
+    n = len(calls)
+    try:
+        want = act_tuples(act)
+    except _NoExpectation:
+        return None
+    out = obs["out"]
+
+    def key(e):
+        f = (e[1].get("f") or {}).get("s")
+        if f not in flows:
+            return json.dumps(["?", e[1]], sort_keys=True)
+        return json.dumps([f, [[p["name"], e[1].get(p["name"])] for p in flows[f]["params"]]], sort_keys=True)
+
+    first_out = next((i for i, e in enumerate(out) if e[0] == "Out"), len(out))
+    ph0 = out[:first_out]
+    done = [e[1].get("i") for e in ph0 if e[0] == "Done"]
+    d = len(done)
+    if done != [{"i": k} for k in range(d)]:
+        return f"call markers {done}: not 0..{d - 1} in order"
+    issued = min(d + 1, n)   # the call a caller is blocked in has been issued too
+    import collections
+
+    ins0 = collections.Counter(key(e) for e in ph0 if e[0] == "In")
+    src_of = lambda ci: render_stmt(dict(calls[ci], op="call", ret=None))  # noqa
+    for ci in range(issued):
+        if ins0[want[ci]] == 0:
+            return (f"call #{ci} `{src_of(ci)}`: no instance ran with the call's parameter values {want[ci]} "
+                    f"(instances ran with {sorted(ins0)})")
+    w_all = collections.Counter(want[:issued])
+    w_start = collections.Counter(want[ci] for ci in range(issued) if calls[ci]["form"] != "activate")
+    w_act = {want[ci] for ci in range(issued) if calls[ci]["form"] == "activate"}
+    for t, c in ins0.items():
+        if w_all[t] == 0:
+            return f"an instance ran with parameter values no call has: {t}"
+        if c > w_all[t]:
+            return f"{c} instances ran with {t}, only {w_all[t]} calls have these values"
+    for t in w_all:
+        if ins0[t] < w_start[t] + (1 if t in w_act else 0):
+            return f"{ins0[t]} instances ran with {t}: fewer than its `start` calls ({w_start[t]}) plus one for its activations"
+    if d < n:
+        # the caller did not get past call #d.  Progress is not in the statement where an `activate` with positional
+        # arguments is served by an activation that an earlier call created with fewer positionals (FlowStarted of the
+        # serving instance lacks `$i`: documented hand-shake quirk); everywhere else the caller has to continue
+        c = calls[d]
+        quirk = c["form"] == "activate" and c["pos"] and any(
+            calls[j]["form"] == "activate" and want[j] == want[d] and len(calls[j]["pos"]) < len(c["pos"]) for j in range(d))
+        if not quirk:
+            return f"the caller did not continue after call #{d} `{src_of(d)}`"
+    elif not any(e[0] == "Fin" for e in ph0):
+        return "the caller did not reach its end (no Fin)"
+    if act["pings"]:
+        # every instance echoes once more per Ping with the values it was started with; an activated one restarts — on
+        # behalf of the same call, so with the same values
+        rest = ins0 - w_start
+        exp_in = ins0 + collections.Counter({t: c * act["pings"] for t, c in rest.items()})
+        exp_out = ins0 + collections.Counter({t: c * (act["pings"] - 1) for t, c in rest.items()})
+        got_in = collections.Counter(key(e) for e in out if e[0] == "In")
+        got_out = collections.Counter(key(e) for e in out if e[0] == "Out")
+        if got_out != exp_out:
+            return f"echoes after Ping: {sorted(got_out.items())}, expected {sorted(exp_out.items())}"
+        if got_in != exp_in:
+            return f"instances started (incl. restarts): {sorted(got_in.items())}, expected {sorted(exp_in.items())}"
+    return None
+
+
+def oracle_ref(case, obs):
+    """the statement at the lookup: an `activate` call may be attached to a running activation only if EVERY parameter
+    value the statement gives the call (positional | named | declared default | None) equals the value it gave the call
+    that created that activation; a call issued by a live flow is never dropped"""
+    q = case["query"]
+
+    def vals(call):
+        return spec_bind(case["params"], [vj.dec(v) for v in call["pos"]], _named_dict(call["named"]))
+
+    try:
+        want = vals(q)
+    except _NoExpectation:
+        return None
+    for what, j in (("lookup", obs.get("ref")), ("decision", obs["decision"][1] if isinstance(obs["decision"], list) and obs["decision"][0] == "reuse" else None)):
+        if isinstance(j, int) and not isinstance(j, bool):
+            try:
+                have = vals(case["insts"][j])
+            except _NoExpectation:
+                continue
+            for p in case["params"]:
+                if not (have[p["name"]] == want[p["name"]]):
+                    return (f"{what}: the call is attached to running activation #{j} whose parameter ${p['name']} is "
+                            f"{vj.enc(have[p['name']])}, the call's value is {vj.enc(want[p['name']])}")
+    if q["src"] == "main" and q["activated"] is True:
+        d = obs["decision"]
+        if d == "ignored" or (isinstance(d, str) and d.startswith(("err", "other"))):
+            return f"an activate call of a live flow: StartFlow decision {d}"
+        if isinstance(d, list) and d[0] == "create":
+            got = {k: v for k, v in obs.get("new_params", [])}
+            for p in case["params"]:
+                if got.get(p["name"]) != _cenc(want[p["name"]]):
+                    return f"new instance: parameter ${p['name']} is {got.get(p['name'])}, the call's value is {_cenc(want[p['name']])}"
+    return None
+
+
+def _named_dict(named):
+    d = {}
+    for k, v in named:
+        if k in d:
+            raise _NoExpectation("duplicate named argument")
+        d[k] = vj.dec(v)
+    return d
+
+
 def oracle(case, obs):
     if "skip" in obs:
         return None
@@ -1417,9 +1934,13 @@ def oracle(case, obs):
         return None
     if case["kind"] == "e2e":
         return oracle_e2e(case, obs)
+    if case["kind"] == "ref":
+        return oracle_ref(case, obs)
     # probe
     if "exc" in obs:
         return f"run_to_completion raised {obs['exc']}"
+    if "act" in case:
+        return oracle_act(case, obs)
     if case.get("expect") is not None:
         exp = [[n, {k: _cenc(v) for k, v in a.items()}] for n, a in case["expect"]]
         if obs["out"] != exp:
@@ -1476,6 +1997,13 @@ def _passes_container(prog):
     """is a bare variable passed as a call argument, or a captured return value mutated in place, somewhere?  (an
     OMITTED argument is not a passed container: a polluted default never gets the finding's signature)"""
     bodies = [prog["main"]] + [f["body"] for f in prog["flows"]]
+    for f in prog["flows"]:
+        # `return $g` of a variable the callee declared global hands the caller the shared global object itself (a later
+        # in-place mutation of `$g` by anybody shows in the caller's captured variable, and vice versa)
+        gl = {s_["name"] for s_ in f["body"] if s_["op"] == "global"}
+        if any(s_["op"] == "ret" and s_["e"].get("var") in gl for s_ in f["body"]) and \
+                any(s_["op"] == "call" and s_.get("ret") and s_["flow"] == f["name"] for b in bodies for s_ in b):
+            return True
     for b in bodies:
         rets = {s_["ret"] for s_ in b if s_["op"] == "call" and s_.get("ret")}
         for s_ in b:
@@ -1489,6 +2017,8 @@ def _passes_container(prog):
 def nontrivial(case, obs):
     if case["kind"] == "fn":
         return len(case["params"]) >= 1 and "skip" not in obs
+    if case["kind"] == "ref":
+        return "skip" not in obs and len(case["insts"]) >= 1
     if case["kind"] == "e2e":
         return any(s["op"] == "call" and (s["pos"] or s["named"] or s.get("ret")) for s in case["prog"]["main"]) or \
             (case.get("mode", "").startswith("hist") and sum(1 for s in case["prog"]["main"] if s["op"] == "call") >= 2)
@@ -1511,6 +2041,13 @@ def tags(case, obs):
             t.append("has:default")
         if _has_reserved(case["params"]):
             t.append("has:reserved-name")
+    elif case["kind"] == "ref":
+        t.append("ref:insts=%d" % len(case["insts"]))
+        t.append("ref:lookup=" + ("none" if obs.get("ref") is None else "hit" if isinstance(obs.get("ref"), int) else str(obs.get("ref"))))
+        d = obs.get("decision")
+        t.append("ref:decision=" + (d[0] + ("-child" if d[0] == "create" and d[1] is not None else "") if isinstance(d, list) else str(d)))
+        t.append("ref:src=" + case["query"]["src"])
+        t.append("ref:activated=" + str(case["query"]["activated"]))
     elif case["kind"] == "e2e":
         t.append("mode:" + case["mode"])
         forms = {s["form"] for s in case["prog"]["main"] if s["op"] == "call"}
@@ -1538,7 +2075,47 @@ def tags(case, obs):
                 t.append("has:return-member")
     else:
         t.append("probe:" + case["tmpl"])
+        if "act" in case:
+            t.extend(act_tags(case["act"]))
+            if sum(1 for e in obs.get("out", []) if e[0] == "Done") < len(case["act"]["calls"]):
+                t.append("act:caller-blocked(positional-served-by-named)")
     return t
+
+
+def act_tags(act):
+    t = ["act:calls=%d" % len(act["calls"]), "act:flows=%d" % len(act["flows"])]
+    try:
+        want = act_tuples(act)
+    except _NoExpectation:
+        return t + ["act:no-expectation"]
+    calls = act["calls"]
+    flows = {f["name"]: f for f in act["flows"]}
+
+    def omitted(c):
+        ps = flows[c["flow"]]["params"]
+        return {p["name"] for i, p in enumerate(ps) if i >= len(c["pos"]) and p["name"] not in [k for k, _ in c["named"]]}
+
+    for j in range(len(calls)):
+        for i in range(j):
+            if calls[i]["flow"] != calls[j]["flow"] or calls[i]["form"] != "activate" or calls[j]["form"] != "activate":
+                continue
+            if want[i] == want[j]:
+                t.append("act:same-values-again")
+                if omitted(calls[i]) != omitted(calls[j]):
+                    t.append("act:same-values-other-shape")
+            else:
+                t.append("act:different-values")
+                if omitted(calls[j]) - omitted(calls[i]):
+                    t.append("act:omits-what-earlier-passed")   # later call relies on a default an earlier one overrode
+                if omitted(calls[i]) - omitted(calls[j]):
+                    t.append("act:passes-what-earlier-omitted")
+    if act["split"] < len(calls):
+        t.append("act:two-callers")
+    if any(c["form"] == "start" for c in calls):
+        t.append("act:with-start")
+    if act.get("reassign"):
+        t.append("act:instance-reassigns-parameter")
+    return sorted(set(t))
 
 
 def escalate(rng, focus, tier):
@@ -1549,6 +2126,10 @@ def escalate(rng, focus, tier):
     cases += [c for c in (g_probe(rng) for _ in range(300)) if not c["tmpl"].startswith("inplace-")]
     cases += [g_hist(rng) for _ in range(600)]
     cases += [c for c in (g_restart_probe(rng) for _ in range(200)) if "-reassign-" in c["tmpl"]]
+    cases += [g_act_probe(rng) for _ in range(400)]
+    cases += [g_ref(rng) for _ in range(3000)]
+    cases += [g_loop_probe(rng) for _ in range(150)]
+    cases += [g_fn_big(rng) for _ in range(300)]
     return cases
 
 
@@ -1562,6 +2143,39 @@ def shrink(case):
                 yield dict(case, params=case["params"][:i] + [dict(p, default=None)] + case["params"][i + 1:])
         if case["rets"]:
             yield dict(case, rets=[])
+    elif case["kind"] == "ref":
+        for i in range(len(case["insts"])):
+            q = case["query"]
+            if q["src"] == "child" and q["src_inst"] == i:
+                continue
+            q2 = dict(q, src_inst=q["src_inst"] - 1) if q["src"] == "child" and q["src_inst"] > i else q
+            if i == 0 and any(x["parent"] == "same" for x in case["insts"][1:]):
+                continue
+            yield dict(case, insts=case["insts"][:i] + case["insts"][i + 1:], query=q2)
+        for i, p in enumerate(case["params"]):
+            if p.get("default") is not None:
+                yield dict(case, params=case["params"][:i] + [dict(p, default=None)] + case["params"][i + 1:])
+    elif case["kind"] == "probe" and "act" in case:
+        a = case["act"]
+        nc = len(a["calls"])
+        if a["split"] < nc:
+            yield mk_act(dict(a, split=nc))
+        for i in range(nc):
+            if nc > 1:
+                yield mk_act(dict(a, calls=a["calls"][:i] + a["calls"][i + 1:], split=(a["split"] - 1 if i < a["split"] else a["split"]) if a["split"] < nc else nc - 1))
+        if a["pings"]:
+            yield mk_act(dict(a, pings=0, variant="hold"))
+        if a.get("reassign"):
+            yield mk_act({k_: v_ for k_, v_ in a.items() if k_ != "reassign"})
+        if len(a["flows"]) > 1:
+            for f in a["flows"]:
+                if all(c["flow"] != f["name"] for c in a["calls"]):
+                    yield mk_act(dict(a, flows=[g for g in a["flows"] if g is not f]))
+        for k, v in a["mvars"]:   # a variable argument -> the literal
+            def sub(e):
+                return {"lit": v} if e.get("var") == k else e
+            yield mk_act(dict(a, mvars=[kv for kv in a["mvars"] if kv[0] != k],
+                              calls=[dict(c, pos=[sub(e) for e in c["pos"]], named=[[n_, sub(e)] for n_, e in c["named"]]) for c in a["calls"]]))
     elif case["kind"] == "e2e":
         p = case["prog"]
         for i in range(len(p["main"]) - 1):
